@@ -366,3 +366,67 @@ func nsRemoteOK(offsets []int, n int) bool {
 //@ loop 0 invariant todo: vForall(i, len(m.Stack), func(k int) bool { return m.Stack[k] == old(m.Stack[k]) })
 //@ loop 0 invariant last: ite(i > len(m.Stack), seInvalid(m.Last) == (seInvalid(old(m.Last)) || seDisabled(old(m.Last))) && seObj(m.Last) == seObj(old(m.Last)) && seDisabled(m.Last) == seDisabled(old(m.Last)) && seCount(m.Last) == seCount(old(m.Last)), m.Last == old(m.Last))
 //@ loop 0 invariant stack: sameSlice(m.Stack, old(m.Stack))
+
+// appendEscapePointerName only appends (RFC 6901 escaping of '~' and '/').
+//
+//@ func appendEscapePointerName
+//@ property C16 C20
+//@ requires distinctArrays(b, name)
+//@ modifies b[len(b):cap(b)]
+//@ ensures alias: sameOrFresh(result, b)
+//@ ensures length: len(result) >= len(b)
+//@ ensures prefix: vForall(0, len(b), func(k int) bool { return result[k] == old(b[k]) })
+//@ loop 0 invariant len(b) >= len(old(b)) && sameOrFresh(b, old(b))
+//@ loop 0 invariant vForall(0, len(old(b)), func(k int) bool { return b[k] == old(b[k]) })
+
+// ---------------------------------------------------------------- namespaces
+//
+// History independence: after reset / push the namespace is empty whatever a
+// previous use left in the (reused) memory.
+
+//@ func (*objectNamespace).reset
+//@ property C18 C08 C20
+//@ requires ns != nil
+//@ modifies ns.endOffsets, ns.allUnquotedNames, ns.mapNames
+//@ ensures empty: len(ns.endOffsets) == 0 && len(ns.allUnquotedNames) == 0 && ns.mapNames == nil
+//@ ensures small: cap(ns.endOffsets) <= 1<<6 && cap(ns.allUnquotedNames) <= 1<<10
+
+//@ func (*objectNamespace).length
+//@ inline
+//@ requires ns != nil
+//@ ensures result == len(ns.endOffsets)
+
+//@ func (objectNamespaceStack).Last
+//@ inline
+
+//@ func (*objectNamespaceStack).reset
+//@ property C18 C08 C20
+//@ requires nss != nil
+//@ modifies *nss
+//@ ensures len(*nss) == 0 && cap(*nss) <= 1<<10
+
+//@ func (*objectNamespaceStack).push
+//@ property C18 C08 C20
+//@ requires nss != nil
+//@ modifies *nss, (*nss)[len(*nss):cap(*nss)]
+//@ ensures depth: len(*nss) == old(len(*nss))+1
+//@ ensures empty: len((*nss)[len(*nss)-1].endOffsets) == 0 && len((*nss)[len(*nss)-1].allUnquotedNames) == 0 && (*nss)[len(*nss)-1].mapNames == nil
+//@ ensures below: vForall(0, old(len(*nss)), func(i int) bool { return sameValue((*nss)[i], old((*nss)[i])) })
+
+//@ func (*objectNamespaceStack).pop
+//@ property C18 C08 C20
+//@ requires nss != nil && len(*nss) > 0
+//@ modifies *nss
+//@ ensures depth: len(*nss) == old(len(*nss))-1
+//@ ensures below: vForall(0, len(*nss), func(i int) bool { return sameValue((*nss)[i], old((*nss)[i])) })
+
+//@ func (*state).reset
+//@ property C18 C20
+//@ requires s != nil
+//@ modifies s.Tokens.Stack, s.Tokens.Last, s.Names.offsets, s.Names.unquotedNames, s.Namespaces
+//@ ensures tokens: len(s.Tokens.Stack) == 0 && s.Tokens.Last == stateTypeArray
+//@ ensures names: len(s.Names.offsets) == 0 && len(s.Names.unquotedNames) == 0
+//@ ensures namespaces: len(s.Namespaces) == 0
+
+//@ func (*state).needObjectValue
+//@ inline
